@@ -164,16 +164,18 @@ macro_rules! harnesses {
 
 pub mod refs;
 pub mod rd;
+pub mod c04;
 pub mod c07;
 pub mod c09;
 pub mod c10;
 pub mod c18;
 
 pub fn dispatch_all(name: &str, s: &mut ReplaySrc) -> bool {
-    c07::dispatch(name, s) || c09::dispatch(name, s) || c10::dispatch(name, s) || c18::dispatch(name, s)
+    c04::dispatch(name, s) || c07::dispatch(name, s) || c09::dispatch(name, s) || c10::dispatch(name, s) || c18::dispatch(name, s)
 }
 pub fn all_names() -> Vec<&'static str> {
     let mut v = Vec::new();
+    v.extend(c04::names());
     v.extend(c07::names());
     v.extend(c09::names());
     v.extend(c10::names());
